@@ -571,11 +571,18 @@ impl Database {
                     .to_string(),
                 10,
             ) {
-                Ok(current) => {
-                    let next = (current + inc).to_string();
-                    db.insert(key.clone(), Value::from(next.clone()));
-                    (next, -1)
-                }
+                Ok(current) => match current.checked_add(inc) {
+                    Some(next) => {
+                        let next = next.to_string();
+                        db.insert(key.clone(), Value::from(next.clone()));
+                        (next, -1)
+                    }
+                    None => {
+                        return Response::Error {
+                            msg: "Increment would overflow".to_string(),
+                        }
+                    }
+                },
                 _ => {
                     return Response::Error {
                         msg: "Key is not numeric".to_string(),
